@@ -5,6 +5,8 @@ from __future__ import annotations
 from typing import TYPE_CHECKING, ClassVar, Generic, TypeVar, cast
 from warnings import warn
 
+import numpy as np
+
 from quansino.mc.canonical import Canonical
 from quansino.mc.contexts import DeformationContext
 from quansino.mc.criteria import CanonicalCriteria, IsobaricCriteria
@@ -131,6 +133,30 @@ class Isobaric(Canonical[MoveType, CriteriaType], Generic[MoveType, CriteriaType
         self.context.last_cell = self.atoms.get_cell()
 
         super().validate_simulation()
+
+    def save_state(self) -> None:
+        """
+        Save the current state and notify every move of an accepted cell change.
+
+        Each distinct move in the move table has its `on_cell_changed` method called
+        once with the new cell when the accepted trial changed the cell.
+        """
+        new_cell = self.atoms.get_cell()
+        cell_changed = not np.array_equal(
+            new_cell.array, self.context.last_cell.array
+        )
+
+        super().save_state()
+
+        if cell_changed:
+            notified: set[int] = set()
+
+            for move_storage in self.moves.values():
+                move = move_storage.move
+
+                if id(move) not in notified:
+                    notified.add(id(move))
+                    move.on_cell_changed(new_cell)
 
     def revert_state(self) -> None:
         """
